@@ -1193,6 +1193,54 @@ type errKeptClient struct {
 	fn string
 }
 
+// PreAssign: an accumulator that may hold errors is not replaced by something that may be nil.
+func (c *errKeptClient) PreAssign(e *Engine, st *State, lhs, rhs []ast.Expr, stmt ast.Stmt) *State {
+	if !e.Reporting() || len(e.Frames()) > 0 || len(lhs) != len(rhs) {
+		return nil
+	}
+	for i, l := range lhs {
+		id, ok := ast.Unparen(l).(*ast.Ident)
+		if !ok {
+			continue
+		}
+		o := objOf(e.Info, id)
+		if o == nil || !isErrorType(o.Type()) || st.Ext("acc:"+e.objKey(o)) != "1" {
+			continue
+		}
+		if f := st.Get(e.objKey(o)); f != nil && f.Nil == 1 {
+			continue // nothing accumulated on this path
+		}
+		// merged with itself: joinErrors(acc, ...)
+		self := false
+		ast.Inspect(rhs[i], func(n ast.Node) bool {
+			if x, ok := n.(*ast.Ident); ok && objOf(e.Info, x) == o {
+				self = true
+			}
+			return !self
+		})
+		if self {
+			continue
+		}
+		nonNil := knownNonNilError(e, st, rhs[i])
+		if call, isCall := ast.Unparen(rhs[i]).(*ast.CallExpr); isCall && !nonNil {
+			if f := Callee(e.Info, call); f != nil && fnName(f) == "joinErrors" {
+				for _, a := range call.Args {
+					if knownNonNilError(e, st, a) {
+						nonNil = true
+					}
+				}
+			}
+		}
+		name := o.Name()
+		site := fmt.Sprintf("%s assignment %s = %s keeps the failure", c.fn, name, exprStr(rhs[i]))
+		e.Site("C08/errors-kept", site, stmt, nonNil, "the accumulator, which may hold errors, is replaced by a value known to be an error")
+		if !nonNil {
+			e.Site("C08/errors-kept", site, stmt, false, "the accumulated error "+name+" may hold errors of earlier statements or productions and is replaced by a value that may be nil: everything reported so far is forgotten and the parse succeeds")
+		}
+	}
+	return nil
+}
+
 func (c *errKeptClient) PostAssign(e *Engine, st *State, lhs, rhs []ast.Expr, _ ast.Stmt) *State {
 	out := st
 	for i, l := range lhs {
@@ -2395,6 +2443,7 @@ func ruleC04Whole(p *Program, r *Run) {
 	g := p.Grammar()
 	info := p.PQL.TypesInfo
 	node := p.Iface(p.Parser, "Node")
+	wholeVisiting := map[*ast.FuncDecl]bool{}
 	var whole func(x ast.Expr, depth int) (bool, string)
 	whole = func(x ast.Expr, depth int) (bool, string) {
 		x = ast.Unparen(x)
@@ -2477,8 +2526,30 @@ func ruleC04Whole(p *Program, r *Run) {
 			}
 			return ok, why
 		case *ast.CallExpr:
-			if f := Callee(info, v); f != nil && fnName(f) == "subqueryName" {
+			f := Callee(info, v)
+			if f != nil && fnName(f) == "subqueryName" {
 				return true, ""
+			}
+			// a module helper every return of which is such a name or value
+			if decl, dpkg := p.DeclOf(f); decl != nil && decl.Body != nil && dpkg == p.PQL && !wholeVisiting[decl] {
+				wholeVisiting[decl] = true
+				defer delete(wholeVisiting, decl)
+				why, rets := "", 0
+				ast.Inspect(decl.Body, func(m ast.Node) bool {
+					if _, nested := m.(*ast.FuncLit); nested {
+						return false
+					}
+					if ret, isRet := m.(*ast.ReturnStmt); isRet && len(ret.Results) >= 1 {
+						rets++
+						if ok2, w := whole(ret.Results[0], depth+1); !ok2 && why == "" {
+							why = "a return of " + decl.Name.Name + ": " + w
+						}
+					}
+					return true
+				})
+				if rets > 0 {
+					return why == "", why
+				}
 			}
 			return false, "the text is the result of " + exprStr(v.Fun)
 		}
@@ -2849,4 +2920,767 @@ func ruleC06LetErrors(p *Program, r *Run) {
 		})
 	}
 	r.Floor("C06/let-errors", 1)
+}
+
+// ---- C13/modes: the constants of an enumeration are distinct.
+//
+// The compiler tells a join condition, a let value and an ordinary argument apart by comparing ctx.mode with named
+// constants, the lexer and parser tell tokens apart by kind. Two constants of one such type with the same value make
+// two cases indistinguishable (a const block split in two restarts iota: joinExprMode becomes the zero value, and
+// `$left` is accepted everywhere). Decided for every named integer type declared in the library that has at least two
+// package-level constants.
+func ruleC13Modes(p *Program, r *Run) {
+	n := 0
+	for _, pkg := range p.Lib() {
+		scope := pkg.Types.Scope()
+		byType := map[*types.TypeName][]*types.Const{}
+		for _, name := range scope.Names() {
+			c, ok := scope.Lookup(name).(*types.Const)
+			if !ok {
+				continue
+			}
+			nt, ok := c.Type().(*types.Named)
+			if !ok || nt.Obj().Pkg() != pkg.Types {
+				continue
+			}
+			if b, isB := nt.Underlying().(*types.Basic); !isB || b.Info()&types.IsInteger == 0 {
+				continue
+			}
+			byType[nt.Obj()] = append(byType[nt.Obj()], c)
+		}
+		var tns []*types.TypeName
+		for tn := range byType {
+			tns = append(tns, tn)
+		}
+		sort.Slice(tns, func(i, j int) bool { return tns[i].Pos() < tns[j].Pos() })
+		for _, tn := range tns {
+			cs := byType[tn]
+			if len(cs) < 2 {
+				continue
+			}
+			sort.Slice(cs, func(i, j int) bool { return cs[i].Pos() < cs[j].Pos() })
+			seen := map[string]*types.Const{}
+			var clash []string
+			for _, c := range cs {
+				k := c.Val().ExactString()
+				if prev, dup := seen[k]; dup {
+					clash = append(clash, fmt.Sprintf("%s and %s are both %s", objName(prev), objName(c), k))
+				} else {
+					seen[k] = c
+				}
+			}
+			n++
+			key := fmt.Sprintf("%s.%s constants are distinct", pkg.Types.Name(), objName(tn))
+			r.Check(len(clash) == 0, "C13/modes", key, p.Pos(tn.Pos()), fmt.Sprintf("%d constants, pairwise different", len(cs)), "two constants of the enumeration have the same value ("+strings.Join(clash, "; ")+"): the cases they name cannot be told apart - a context that is not a join condition compares equal to the join mode, so `$left`/`$right` are accepted there")
+		}
+	}
+	r.Floor("C13/modes", 2)
+}
+
+// ---- C03/constants: the identifiers that are not column names are exactly the documented constants.
+//
+// A bare name after `on` means $left.k == $right.k, and a bare identifier elsewhere names a column (or a binding),
+// unless it is one of the constants true, false, null. The table that says so (builtinIdentifiers) must hold
+// exactly those three names, each mapped to the SQL keyword of the same meaning; every further row turns a legal
+// column name into a constant (`on True` would join on TRUE).
+func ruleC03Constants(p *Program, r *Run) {
+	pkg := p.PQL
+	info := pkg.TypesInfo
+	want := map[string]string{"true": "TRUE", "false": "FALSE", "null": "NULL"}
+	got := map[string]string{}
+	var cl ast.Node
+	hasVar := false
+	for _, f := range pkg.Syntax {
+		for _, d := range f.Decls {
+			if gd, ok := d.(*ast.GenDecl); ok && gd.Tok == token.VAR {
+				for _, sp := range gd.Specs {
+					for _, nm := range sp.(*ast.ValueSpec).Names {
+						if nm.Name == "builtinIdentifiers" || objName(info.Defs[nm]) == "builtinIdentifiers" {
+							hasVar = true // also under a new name (canonical names of the reviewed tree)
+						}
+					}
+				}
+			}
+		}
+	}
+	if hasVar {
+		lit, ok := p.PkgVarValue(pkg, "builtinIdentifiers").(*ast.CompositeLit)
+		if !ok {
+			r.Fail("C03/constants", "pql.builtinIdentifiers table", "-", "the table of built-in constants is not a map literal")
+			return
+		}
+		cl = lit
+		for _, el := range lit.Elts {
+			if kv, ok := el.(*ast.KeyValueExpr); ok {
+				k, ok1 := constString(info, kv.Key)
+				v, ok2 := constString(info, kv.Value)
+				if ok1 && ok2 {
+					got[k] = v
+				} else {
+					got[exprStr(kv.Key)] = "?"
+				}
+			}
+		}
+	} else {
+		// the table kept as a function: func(name string) (sql string, ok bool) { switch name { case "true": return "TRUE", true ... } }
+		for _, fd := range AllFuncs(pkg) {
+			fo := FuncObj(pkg, fd)
+			if fo == nil {
+				continue
+			}
+			sig := fo.Type().(*types.Signature)
+			if sig.Recv() != nil || sig.Params().Len() != 1 || TypeStr(sig.Params().At(0).Type()) != "string" || sig.Results().Len() != 2 ||
+				TypeStr(sig.Results().At(0).Type()) != "string" || TypeStr(sig.Results().At(1).Type()) != "bool" || len(fd.Body.List) != 1 {
+				continue
+			}
+			sw, ok := fd.Body.List[0].(*ast.SwitchStmt)
+			if !ok || sw.Tag == nil || len(fd.Type.Params.List) != 1 || len(fd.Type.Params.List[0].Names) != 1 || objOf(info, sw.Tag) != info.Defs[fd.Type.Params.List[0].Names[0]] {
+				continue
+			}
+			okShape, rows := true, map[string]string{}
+			for _, cs := range sw.Body.List {
+				cc := cs.(*ast.CaseClause)
+				if len(cc.Body) != 1 {
+					okShape = false
+					break
+				}
+				ret, isRet := cc.Body[0].(*ast.ReturnStmt)
+				if !isRet || len(ret.Results) != 2 {
+					okShape = false
+					break
+				}
+				if cc.List == nil {
+					continue
+				}
+				v, isS := constString(info, ret.Results[0])
+				for _, ce := range cc.List {
+					if k, isK := constString(info, ce); isK && isS {
+						rows[k] = v
+					} else {
+						okShape = false
+					}
+				}
+			}
+			if _, hasTrue := rows["true"]; okShape && hasTrue {
+				got, cl = rows, fd
+				break
+			}
+		}
+		if cl == nil {
+			r.Fail("C03/constants", "pql.builtinIdentifiers table", "-", "no table of built-in constants found (neither the map builtinIdentifiers nor a function name -> (sql, found) that switches on the name)")
+			return
+		}
+	}
+	var names []string
+	for k := range want {
+		names = append(names, k)
+	}
+	for k := range got {
+		if _, doc := want[k]; !doc {
+			names = append(names, k)
+		}
+	}
+	sort.Strings(names)
+	for _, k := range names {
+		w, doc := want[k]
+		g, have := got[k]
+		key := fmt.Sprintf("pql.builtinIdentifiers[%q]", k)
+		switch {
+		case doc && have && strings.EqualFold(strings.TrimSpace(g), w):
+			r.Pass("C03/constants", key, p.Pos(cl.Pos()), "the constant "+k+" is written "+w)
+		case doc && have:
+			r.Fail("C03/constants", key, p.Pos(cl.Pos()), fmt.Sprintf("the constant %s is written %q, documented %s", k, g, w))
+		case doc:
+			r.Fail("C03/constants", key, p.Pos(cl.Pos()), "the documented constant "+k+" is missing from the table: it would be read as a column name")
+		default:
+			r.Fail("C03/constants", key, p.Pos(cl.Pos()), fmt.Sprintf("%q is not one of the documented constants (true, false, null) but is in the table: an identifier that is a legal column name is taken for a constant - a bare join key `on %s` is no longer $left.%s == $right.%s, and a column of that name cannot be referred to", k, k, k, k))
+		}
+	}
+	r.Floor("C03/constants", 3)
+}
+
+// ---- C12/nil-receiver: a method called on an optional node pointer tolerates nil.
+//
+// Trees of successful parses contain nil pointers in their optional fields (an unnamed column's Name, a join
+// without kind=). The Span methods - and through them Compile's error paths - call methods on such fields without
+// testing them, which is fine only because those methods have pointer receivers and start by testing the receiver
+// for nil. A method with a value receiver dereferences at the call; one without the test dereferences inside.
+func ruleC12NilReceiver(p *Program, r *Run) {
+	pkg := p.Parser
+	info := pkg.TypesInfo
+	optional := p.optionalNodeFields()
+	guardsNil := func(decl *ast.FuncDecl) bool {
+		if decl == nil || decl.Recv == nil || len(decl.Recv.List) != 1 || len(decl.Recv.List[0].Names) != 1 || decl.Body == nil {
+			return false
+		}
+		if _, isPtr := info.TypeOf(decl.Recv.List[0].Type).(*types.Pointer); !isPtr {
+			return false
+		}
+		recv := info.Defs[decl.Recv.List[0].Names[0]]
+		// the receiver is not dereferenced before a statement `if recv == nil { return ... }`
+		for _, st := range decl.Body.List {
+			if ifs, ok := st.(*ast.IfStmt); ok && ifs.Init == nil {
+				found := false
+				ast.Inspect(ifs.Cond, func(n ast.Node) bool {
+					if b, ok := n.(*ast.BinaryExpr); ok && b.Op == token.EQL && objOf(info, b.X) == recv && isNilIdent(info, b.Y) {
+						found = true
+					}
+					return true
+				})
+				if found && len(ifs.Body.List) > 0 {
+					if _, isRet := ifs.Body.List[len(ifs.Body.List)-1].(*ast.ReturnStmt); isRet {
+						return true
+					}
+				}
+			}
+			// any use of the receiver's fields before the test
+			deref := false
+			ast.Inspect(st, func(n ast.Node) bool {
+				if sel, ok := n.(*ast.SelectorExpr); ok && objOf(info, sel.X) == recv {
+					deref = true
+				}
+				return true
+			})
+			if deref {
+				return false
+			}
+		}
+		return false
+	}
+	n := 0
+	for _, fd := range AllFuncs(pkg) {
+		fn := FuncName(pkg, fd)
+		k := 0
+		ast.Inspect(fd.Body, func(x ast.Node) bool {
+			call, ok := x.(*ast.CallExpr)
+			if !ok {
+				return true
+			}
+			sel, ok := ast.Unparen(call.Fun).(*ast.SelectorExpr)
+			if !ok {
+				return true
+			}
+			fsel, ok := ast.Unparen(sel.X).(*ast.SelectorExpr)
+			if !ok {
+				return true
+			}
+			f := selField(info, fsel)
+			if f == nil {
+				return true
+			}
+			if _, isPtr := f.Type().(*types.Pointer); !isPtr {
+				return true
+			}
+			why, opt := optional[fieldKey(info.TypeOf(fsel.X), f)]
+			if !opt {
+				return true
+			}
+			callee := Callee(info, call)
+			if callee == nil {
+				return true
+			}
+			// under an explicit test of the field?
+			guarded := false
+			for a := p.Parent(call); a != nil && !guarded; a = p.Parent(a) {
+				if ifs, ok := a.(*ast.IfStmt); ok && call.Pos() >= ifs.Body.Pos() && call.End() <= ifs.Body.End() {
+					ast.Inspect(ifs.Cond, func(m ast.Node) bool {
+						if b, ok := m.(*ast.BinaryExpr); ok && b.Op == token.NEQ && isNilIdent(info, b.Y) && sameExpr(info, b.X, fsel) {
+							guarded = true
+						}
+						return true
+					})
+				}
+				if _, isFn := a.(*ast.FuncDecl); isFn {
+					break
+				}
+			}
+			n++
+			k++
+			r.Saw(fn)
+			key := fmt.Sprintf("%s call #%d %s on the optional field %s", fn, k, callee.Name(), exprStr(fsel))
+			decl, _ := p.DeclOf(callee)
+			ok2 := guarded || guardsNil(decl)
+			r.Check(ok2, "C12/nil-receiver", key, p.Pos(call.Pos()), "pointer receiver that returns before touching a nil receiver (or the field is tested first)", "the field can be nil in the tree of a successful parse ("+why+") and "+callee.FullName()+" does not tolerate a nil receiver (value receiver, or no `if recv == nil` before the first use): computing a span - which Compile does on its error paths - panics")
+			return true
+		})
+	}
+	if n == 0 {
+		r.PassNT("C12/nil-receiver", "parser: no method is called on an optional node field", "-", "nothing to decide")
+	}
+}
+
+// ---- C02/suffix: a subquery's pending sort and row limit are always written.
+//
+// The planner attaches ORDER BY terms and a LIMIT to a subquery; the clause writer appends them after whatever the
+// subquery's operator writes. Every successful return of (*subquery).write must therefore have asked about both:
+// on the path the nil-ness of sub.sort and of sub.take is known, and where sub.take is known non-nil the last thing
+// written is its row count. (An early return in front of the suffix drops a LIMIT the planner attached.) The
+// placeholder branch for an operator the writer does not know (dead by C05/dead) is exempt.
+func ruleC02Suffix(p *Program, r *Run) {
+	g := p.Grammar()
+	pkg := p.PQL
+	info := pkg.TypesInfo
+	wfd := p.MustFunc(pkg, "subquery.write")
+	fn := FuncName(pkg, wfd)
+	r.Saw(fn)
+	// the subquery being written: the receiver, or a parameter of that type; its pending sort and limit by field type
+	var subObj types.Object
+	var fields []*ast.Field
+	if wfd.Recv != nil {
+		fields = append(fields, wfd.Recv.List...)
+	}
+	fields = append(fields, wfd.Type.Params.List...)
+	for _, f := range fields {
+		if strings.HasSuffix(TypeStr(info.TypeOf(f.Type)), "pql.subquery") && len(f.Names) == 1 && subObj == nil {
+			subObj = info.Defs[f.Names[0]]
+		}
+	}
+	if subObj == nil {
+		r.Fail("C02/suffix", fn+" subquery", p.Pos(wfd.Pos()), "the clause writer has no named receiver or parameter of type *subquery")
+		return
+	}
+	// state keys use the canonical (reviewed) field names, source text the current ones
+	sortName, takeName, takeSrc := "", "", ""
+	if st := StructOf(subObj.Type()); st != nil {
+		for i := 0; i < st.NumFields(); i++ {
+			switch TypeStr(st.Field(i).Type()) {
+			case "*parser.SortOperator":
+				sortName = fldName(st.Field(i))
+			case "*parser.TakeOperator":
+				takeName = fldName(st.Field(i))
+				takeSrc = st.Field(i).Name()
+			}
+		}
+	}
+	if sortName == "" || takeName == "" {
+		r.Fail("C02/suffix", fn+" subquery fields", p.Pos(wfd.Pos()), "the subquery has no fields of type *SortOperator / *TakeOperator")
+		return
+	}
+	recv := p.ObjKey(subObj)
+	byID := map[int]*emitEvent{}
+	for _, ev := range g.events {
+		byID[ev.ID] = ev
+	}
+	type agg struct {
+		n   int
+		bad []string
+	}
+	res := map[string]*agg{}
+	var order []string
+	for _, x := range g.exits {
+		if x.Ev.Func != wfd || x.Ev.Text == "String()" {
+			continue
+		}
+		// the placeholder for an unknown operator
+		if prev := byID[x.Prev]; prev != nil && prev.Kind == "T" && (strings.Contains(prev.Text, "unhandled") || strings.Contains(prev.Text, "unsupported") || strings.Contains(prev.Text, "*/")) {
+			continue
+		}
+		if prev := byID[x.Prev]; prev != nil && prev.Kind == "RAW" && prev.Verb != "" {
+			continue // the %T of the placeholder
+		}
+		key := fmt.Sprintf("%s %s has written the pending sort and limit", fn, x.Ev.Text)
+		a := res[key]
+		if a == nil {
+			a = &agg{}
+			res[key] = a
+			order = append(order, key)
+		}
+		a.n++
+		sortF, takeF := x.St.Get(recv+"."+sortName), x.St.Get(recv+"."+takeName)
+		switch {
+		case sortF == nil || sortF.Nil == 0:
+			a.bad = append(a.bad, "whether a sort is pending is not known (the ORDER BY part was not reached)")
+		case takeF == nil || takeF.Nil == 0:
+			a.bad = append(a.bad, "whether a row limit is pending is not known (the LIMIT part was not reached)")
+		case takeF.Nil == 2:
+			prev := byID[x.Prev]
+			if prev == nil || prev.Kind != "HOLE" || prev.Arg == nil || !strings.Contains(exprStr(prev.Arg), "."+takeSrc) {
+				a.bad = append(a.bad, "a row limit is pending but the last thing written is not its row count")
+			}
+		}
+	}
+	sort.Strings(order)
+	for _, key := range order {
+		a := res[key]
+		sort.Strings(a.bad)
+		why := ""
+		if len(a.bad) > 0 {
+			why = a.bad[0]
+		}
+		r.Check(len(a.bad) == 0, "C02/suffix", key, p.Pos(wfd.Pos()), fmt.Sprintf("sub.sort and sub.take are decided on every path to this return (%d abstract path states)", a.n), "the clause writer can return successfully without having written a pending ORDER BY / LIMIT: "+why+" - a row limit the planner attached to this subquery would be dropped")
+	}
+	r.Floor("C02/suffix", 1)
+}
+
+// ---- C01/children: an expression writer writes the children of its node, not something it builds on the way.
+//
+// Every call from an expression writer (a function with an Expr or *CallExpr parameter) to another writer hands over
+// the node itself or something reached from it through fields and list elements. A node built on the spot
+// (&parser.BinaryExpr{...}) means the construct is rewritten into a different one while it is written - `x in (v)`
+// as `x == v`, say - and the rewritten form need not compute the same value (NULL handling, operand order).
+func ruleC01Children(p *Program, r *Run) {
+	g := p.Grammar()
+	type agg struct {
+		ev  *emitEvent
+		bad string
+		n   int
+	}
+	res := map[int]*agg{}
+	var order []int
+	for _, o := range g.occs {
+		if o.Ev.Kind != "HOLE" || o.XKey == "" || o.Ev.Arg == nil {
+			continue
+		}
+		a := res[o.Ev.ID]
+		if a == nil {
+			a = &agg{ev: o.Ev}
+			res[o.Ev.ID] = a
+			order = append(order, o.Ev.ID)
+		}
+		a.n++
+		k := o.ArgKey
+		ok := k == o.XKey || strings.HasPrefix(k, o.XKey+".") || strings.HasPrefix(k, o.XKey+"[") ||
+			strings.HasPrefix(k, "assert("+o.XKey+",") || strings.Contains(k, "("+o.XKey+")") && strings.HasPrefix(k, "call:")
+		if !ok && k != "" {
+			// an element of one of the node's lists held in a range variable: its key mentions the node
+			ok = strings.Contains(k, o.XKey+".") || strings.Contains(k, "assert("+o.XKey+",")
+		}
+		if !ok && a.bad == "" {
+			a.bad = exprStr(o.Ev.Arg)
+		}
+	}
+	sort.Ints(order)
+	cnt := map[string]int{}
+	for _, id := range order {
+		a := res[id]
+		cnt[a.ev.FnName]++
+		r.Saw(a.ev.FnName)
+		key := fmt.Sprintf("%s hands %s to %s (#%d)", a.ev.FnName, exprStr(a.ev.Arg), a.ev.Callee.Name(), cnt[a.ev.FnName])
+		r.Check(a.bad == "", "C01/children", key, p.Pos(a.ev.Call.Pos()), "the node itself or a child of it", "what is handed to the writer ("+a.bad+") is not reached from the node being written: the construct is replaced by another one while it is written, which need not compute the same value on every row")
+	}
+	r.Floor("C01/children", 20)
+}
+
+// ---- C08/range: a sub-parser sees exactly the tokens of its range.
+//
+// split hands a bracketed range of the parent's tokens to a new parser, and endSplit reports what that parser left
+// unread. Both rest on the child's token list being that range: every value stored into a parser's tokens field is
+// the result of Scan, a slice of a parser's own tokens (p.tokens[a:b]), or a parameter that every caller binds to
+// one of these. A child whose list is emptied or replaced (a depth limit that sets it to nil) makes endSplit see
+// "nothing left" although the range was never read: its tokens are dropped without an error.
+func ruleC08Range(p *Program, r *Run) {
+	pkg := p.Parser
+	info := pkg.TypesInfo
+	scan := FuncObj(pkg, p.MustFunc(pkg, "Scan"))
+	isParserT := func(t types.Type) bool {
+		return t != nil && strings.HasSuffix(strings.TrimPrefix(TypeStr(t), "*"), "parser.parser")
+	}
+	var okVal func(x ast.Expr, fd *ast.FuncDecl, depth int) (bool, string)
+	okVal = func(x ast.Expr, fd *ast.FuncDecl, depth int) (bool, string) {
+		x = ast.Unparen(x)
+		if depth > 4 {
+			return false, "definition chain too long"
+		}
+		switch v := x.(type) {
+		case *ast.CallExpr:
+			if Callee(info, v) == scan {
+				return true, ""
+			}
+			return false, "the result of " + exprStr(v.Fun)
+		case *ast.SliceExpr:
+			if sel, ok := ast.Unparen(v.X).(*ast.SelectorExpr); ok && selName(sel) == "tokens" && isParserT(info.TypeOf(sel.X)) {
+				return true, ""
+			}
+			return okVal(v.X, fd, depth+1)
+		case *ast.SelectorExpr:
+			if selName(v) == "tokens" && isParserT(info.TypeOf(v.X)) {
+				return true, ""
+			}
+		case *ast.Ident:
+			if isNilIdent(info, v) {
+				return false, "nil"
+			}
+			o, _ := objOf(info, v).(*types.Var)
+			if o == nil {
+				return false, exprStr(x)
+			}
+			if fd != nil {
+				if idx := paramIndex(info, fd, o); idx >= 0 {
+					fn, _ := info.Defs[fd.Name].(*types.Func)
+					n, why := 0, ""
+					for _, other := range AllFuncs(pkg) {
+						ast.Inspect(other.Body, func(m ast.Node) bool {
+							if call, ok := m.(*ast.CallExpr); ok && fn != nil && Callee(info, call) == fn && idx < len(call.Args) {
+								n++
+								if ok2, w := okVal(call.Args[idx], other, depth+1); !ok2 && why == "" {
+									why = w
+								}
+							}
+							return true
+						})
+					}
+					if n == 0 {
+						return false, "a parameter of a function that is never called"
+					}
+					return why == "", why
+				}
+			}
+			why := ""
+			ok := p.allDefsAre(v, func(d ast.Expr) bool {
+				if id, isID := d.(*ast.Ident); isID && objOf(info, id) == types.Object(o) {
+					return false
+				}
+				ok2, w := okVal(d, fd, depth+1)
+				if !ok2 && why == "" {
+					why = w
+				}
+				return ok2
+			})
+			return ok, why
+		}
+		return false, exprStr(x)
+	}
+	n := 0
+	for _, fd := range AllFuncs(pkg) {
+		fn := FuncName(pkg, fd)
+		k := 0
+		report := func(at ast.Node, val ast.Expr) {
+			n++
+			k++
+			r.Saw(fn)
+			ok, why := okVal(val, fd, 0)
+			key := fmt.Sprintf("%s token list #%d given to a parser", fn, k)
+			r.Check(ok, "C08/range", key, p.Pos(at.Pos()), "the result of Scan or a slice of a parser's own tokens", "a parser's token list is set to something other than the scanned tokens or a range of the parent's tokens ("+why+"): endSplit then reports nothing left although the range was not read, and the tokens of the range are dropped without an error")
+		}
+		ast.Inspect(fd.Body, func(nd ast.Node) bool {
+			switch v := nd.(type) {
+			case *ast.CompositeLit:
+				if isParserT(info.TypeOf(v)) {
+					if val := litField(info, v, "tokens"); val != nil {
+						report(v, val)
+					}
+				}
+			case *ast.AssignStmt:
+				for i, l := range v.Lhs {
+					if sel, ok := ast.Unparen(l).(*ast.SelectorExpr); ok && selName(sel) == "tokens" && isParserT(info.TypeOf(sel.X)) && i < len(v.Rhs) && len(v.Lhs) == len(v.Rhs) {
+						report(v, v.Rhs[i])
+					}
+				}
+			}
+			return true
+		})
+	}
+	r.Floor("C08/range", 3)
+}
+
+// ---- C10/union-core: the span accumulated by unionSpans is only overwritten while it is unset.
+//
+// Every per-node Span method is a union of its parts' spans (C10/union checks that all parts are listed); the union
+// itself starts from the null span and grows by min/max. The accumulated span may be replaced by the next span -
+// rather than widened - only on a path where it is known to be unset: IsValid() of it is known false, or its
+// start (or end) is known negative. A weaker test (start > 0) treats a span that starts at offset 0 as unset and
+// drops the first token of the source from every span that contains it.
+type unionCoreClient struct {
+	BaseClient
+	fn       string
+	acc      types.Object
+	isValid  *types.Func
+	rangeVal map[types.Object]bool
+	seen     int
+}
+
+func (c *unionCoreClient) unset(e *Engine, st *State) bool {
+	k := e.objKey(c.acc)
+	for _, fld := range []string{".Start", ".End"} {
+		if f := st.Get(k + fld); f != nil && (f.Hi != nil && *f.Hi < 0 || f.HasEq && strings.HasPrefix(f.Eq, "-")) {
+			return true
+		}
+	}
+	for _, key := range st.Keys() {
+		if strings.HasPrefix(key, "call:"+c.isValid.FullName()+"("+k+")") {
+			if f := st.Get(key); f != nil && f.HasEq && f.Eq == "false" {
+				return true
+			}
+		}
+	}
+	return false
+}
+
+func (c *unionCoreClient) PreAssign(e *Engine, st *State, lhs, rhs []ast.Expr, stmt ast.Stmt) *State {
+	if !e.Reporting() || len(lhs) != len(rhs) || len(e.Frames()) > 0 {
+		return nil
+	}
+	inLoop := false
+	for a := e.P.Parent(stmt); a != nil; a = e.P.Parent(a) {
+		switch a.(type) {
+		case *ast.ForStmt, *ast.RangeStmt:
+			inLoop = true
+		}
+	}
+	if !inLoop {
+		return nil
+	}
+	for i, l := range lhs {
+		l = ast.Unparen(l)
+		var field string
+		switch v := l.(type) {
+		case *ast.Ident:
+			if objOf(e.Info, v) != c.acc {
+				continue
+			}
+		case *ast.SelectorExpr:
+			if objOf(e.Info, v.X) != c.acc {
+				continue
+			}
+			field = v.Sel.Name
+		default:
+			continue
+		}
+		// widened: the new value mentions the accumulated one (min(u.Start, ...), newSpan(min(u.Start, ...), ...))
+		widen := false
+		var mentions func(x ast.Node, depth int)
+		mentions = func(x ast.Node, depth int) {
+			ast.Inspect(x, func(n ast.Node) bool {
+				if id, ok := n.(*ast.Ident); ok {
+					if objOf(e.Info, id) == c.acc {
+						widen = true
+					} else if depth < 3 {
+						// lo := min(result.Start, next.Start): a local computed from the accumulated span
+						if d := e.P.DefExpr(id); d != nil && d != ast.Expr(id) {
+							mentions(d, depth+1)
+						}
+					}
+				}
+				return !widen
+			})
+		}
+		mentions(rhs[i], 0)
+		if widen {
+			continue
+		}
+		c.seen++
+		what := "the accumulated span"
+		if field != "" {
+			what = "the accumulated span's " + field
+		}
+		key := fmt.Sprintf("%s %s = %s replaces %s only while it is unset", c.fn, exprStr(l), exprStr(rhs[i]), what)
+		ok := c.unset(e, st)
+		e.Site("C10/union-core", key, stmt, ok, "IsValid() of the accumulated span is known false (or its start/end known negative) where it is replaced")
+		if !ok {
+			e.Site("C10/union-core", key, stmt, false, what+" is overwritten on a path where it is not known to be unset: a span that legitimately starts at offset 0 is taken for unset, so the union loses its first part (the first token of a source is outside the span of the statement that contains it)")
+		}
+	}
+	return nil
+}
+
+func ruleC10UnionCore(p *Program, r *Run) {
+	pkg := p.Parser
+	info := pkg.TypesInfo
+	fd := p.FuncDecl(pkg, "unionSpans")
+	if fd == nil {
+		return
+	}
+	fn := FuncName(pkg, fd)
+	r.Saw(fn)
+	// the accumulator: the local Span variable that is returned
+	var acc types.Object
+	ast.Inspect(fd.Body, func(n ast.Node) bool {
+		if ret, ok := n.(*ast.ReturnStmt); ok && len(ret.Results) == 1 {
+			if o, isVar := objOf(info, ret.Results[0]).(*types.Var); isVar && TypeStr(o.Type()) == "parser.Span" {
+				acc = o
+			}
+		}
+		return true
+	})
+	if acc == nil {
+		r.PassNT("C10/union-core", fn+" accumulator", p.Pos(fd.Pos()), "unionSpans does not accumulate into a local span")
+		return
+	}
+	c := &unionCoreClient{fn: fn, acc: acc, isValid: FuncObj(pkg, p.MustFunc(pkg, "Span.IsValid"))}
+	e := NewEngine(p, pkg, fd, c)
+	e.Run(nil)
+	for _, m := range e.Errs {
+		r.Fail("C10/union-core", fn+" engine", "-", m)
+	}
+	e.FlushSites(r)
+	if c.seen == 0 {
+		r.PassNT("C10/union-core", fn+" only widens", p.Pos(fd.Pos()), "the accumulated span is never replaced inside the loop")
+	}
+}
+
+// ---- C07/statements (non-nil): Parse only returns statements that exist.
+//
+// Every value appended to the list Parse returns is known non-nil where it is appended (an empty piece between two
+// semicolons yields no statement, not a nil one): the number and order of statements is that of the non-empty
+// pieces, and consumers (Compile's dispatch, Walk) never meet a nil interface.
+type nonNilStmtClient struct {
+	BaseClient
+	InlinePure
+	fn     string
+	result types.Object
+	seen   int
+}
+
+func (c *nonNilStmtClient) PreAssign(e *Engine, st *State, lhs, rhs []ast.Expr, stmt ast.Stmt) *State {
+	if !e.Reporting() || len(lhs) != len(rhs) || len(e.Frames()) > 0 {
+		return nil
+	}
+	for i, l := range lhs {
+		if objOf(e.Info, l) != c.result {
+			continue
+		}
+		call, ok := ast.Unparen(rhs[i]).(*ast.CallExpr)
+		if !ok || !IsBuiltinCall(e.Info, call, "append") || len(call.Args) < 2 || call.Ellipsis.IsValid() {
+			continue
+		}
+		for _, a := range call.Args[1:] {
+			c.seen++
+			key := fmt.Sprintf("%s appends %s to the statements only where it is non-nil", c.fn, exprStr(a))
+			ok := e.NonNil(st, a)
+			if f := e.valueOf(st, a); f != nil && f.Nil == 2 {
+				ok = true
+			}
+			e.Site("C07/statements", key, stmt, ok, "the appended statement is known non-nil")
+			if !ok {
+				e.Site("C07/statements", key, stmt, false, "a statement that may be nil is appended to Parse's result: an empty piece (`a;;b`, a trailing `;`) would yield a nil statement, so statements no longer correspond to the non-empty pieces and consumers meet a nil interface")
+			}
+		}
+	}
+	return nil
+}
+
+func ruleC07NonNilStatements(p *Program, r *Run) {
+	pkg := p.Parser
+	info := pkg.TypesInfo
+	fd := p.MustFunc(pkg, "Parse")
+	fn := FuncName(pkg, fd)
+	r.Saw(fn)
+	var result types.Object
+	ast.Inspect(fd.Body, func(n ast.Node) bool {
+		if _, nested := n.(*ast.FuncLit); nested {
+			return false
+		}
+		if ret, ok := n.(*ast.ReturnStmt); ok && len(ret.Results) == 2 {
+			if o, isVar := objOf(info, ret.Results[0]).(*types.Var); isVar {
+				if sl, isSl := o.Type().Underlying().(*types.Slice); isSl && TypeStr(sl.Elem()) == "parser.Statement" {
+					result = o
+				}
+			}
+		}
+		return true
+	})
+	if result == nil {
+		r.Fail("C07/statements", fn+" result list", p.Pos(fd.Pos()), "Parse does not return a local list of statements")
+		return
+	}
+	c := &nonNilStmtClient{fn: fn, result: result}
+	e := NewEngine(p, pkg, fd, c)
+	e.Run(nil)
+	for _, m := range e.Errs {
+		r.Fail("C07/statements", fn+" engine (non-nil statements)", "-", m)
+	}
+	e.FlushSites(r)
+	if c.seen == 0 {
+		r.Fail("C07/statements", fn+" appends statements", p.Pos(fd.Pos()), "no statement is ever appended to Parse's result on a feasible path")
+	}
 }
